@@ -78,7 +78,7 @@ class EngineBase:
 
     def _solver(self):
         s = z3.Solver()
-        s.set("timeout", self.timeout_ms if self._exact else min(self.timeout_ms, 1500))
+        s.set("timeout", self.timeout_ms if self._exact else min(self.timeout_ms, 4000))
         return s
 
     def feasible(self, pc, extra=None) -> bool:
@@ -250,6 +250,12 @@ class EngineBase:
                 ps = [e[1] for e in o.items]
                 return z3.Or(*ps) if ps else z3.BoolVal(False)
             return z3.BoolVal(True)
+        if isinstance(v, EnumV) and any(b.split(".")[-1] in ("IntEnum", "IntFlag") for b in getattr(v.cls, "bases", [])):
+            # members of an IntEnum are ints: the member with value 0 is falsy
+            if self.enum_by_index(v.cls):
+                raise Unsupported("truth value of an IntEnum with non-integer members")
+            val = v.val if is_term(v.val) else self.intval(v.val)
+            return val != self.intval(0)
         if isinstance(v, (Rec, EnumV, ClassV, FuncV, BoundV, BuiltinV, Opaque, ExcV)):
             if isinstance(v, Rec) and self.repo.find_method(v.cls, "__bool__"):
                 raise Unsupported("__bool__")
